@@ -404,7 +404,7 @@ def run_harness(scratch, h, logdir, cwd=None):
 # replay (concrete playback on the natively compiled real code)
 # --------------------------------------------------------------------------------------------
 
-def replay(scratch, h, res, out, pid):
+def replay(scratch, h, res, out, pid, allow_playback=True):
     """Write the replay file for a failed obligation; try Kani's concrete playback against the
     native build of the real code. Returns (path, reproduced: bool)."""
     short = h["name"].split("::")[-1]
@@ -420,6 +420,9 @@ def replay(scratch, h, res, out, pid):
     native = ""
     cwd = f"{scratch}/repo"
     try:
+        if not allow_playback:
+            raise RuntimeError("concrete playback skipped: not enough of the quick tier's wall-clock budget left "
+                               "(re-run `./check %s --tier thorough --only %s` for the native replay)" % (pid, short))
         rc, pout, _, to = run_cmd(kani_cmd(h, ["--concrete-playback=print"]), cwd,
                                   h.get("timeout_s", 600), h.get("mem_gb", 8))
         m = re.search(r"```\n(.*?)```", pout, re.S)
@@ -727,7 +730,10 @@ def main():
                                           f"no-failing-input-found (Verus gives no counterexample)\n\n{r['raw']}\n")
                     log(f"VIOLATION property={pid} replay={path} no-failing-input-found")
                 else:
-                    path, rep = replay(scratch, h, r, outs[h["name"]], pid)
+                    # playback re-runs the harness and builds a native test: only if the budget allows
+                    need = (r.get("wall_s") or 0) + 200
+                    ok_time = DEADLINE[0] is None or (DEADLINE[0] - time.time()) > need
+                    path, rep = replay(scratch, h, r, outs[h["name"]], pid, allow_playback=ok_time)
                     r["replay"] = path
                     r["replayed_natively"] = rep
                     log(f"VIOLATION property={pid} replay={path}" + ("" if rep else " no-failing-input-found"))
